@@ -186,17 +186,28 @@ def step (s : State) (args : List String) (impl : String) : State × Out :=
     | _, _, _, _, _ => ({}, badOp)
   | ["gate", kind, _, allow, from_] =>
     -- two real nodes: A = 10.0.0.1/24 (under test) and B = 10.0.0.2 at 192.0.2.2:4242
+    -- <global entries>[~<range prefix>~<range entries>]
+    let parts := allow.splitOn "~"
     let al : Option (Option (AllowList.Table Bool)) :=
       if allow == "-" then some none else
-      match parseEntries (allow.splitOn ",") with
+      match parseEntries ((parts.headD "").splitOn ",") with
       | some es => (match AllowList.newAllowList es with | .ok t => some (some t) | .error _ => none)
       | none => none
+    let inside : Option (Option (AllowList.Table (Option (AllowList.Table Bool)))) :=
+      match parts with
+      | [_, rp, re] =>
+        (match parsePrefix rp, parseEntries (re.splitOn ",") with
+         | some p, some es =>
+           (match AllowList.rangesLoop [] [{ key := some p, list := some es }] with
+            | .ok t => some (some t) | .error _ => none)
+         | _, _ => none)
+      | _ => some none
     let k : Option LearnKind := if kind == "hs1" then some .stage1 else if kind == "hs2" then some .stage2
       else if kind == "roam" then some .roam else none
-    match al, k, parseAP from_ with
-    | some al, some k, some fr =>
+    match al, inside, k, parseAP from_ with
+    | some al, some inside, some k, some fr =>
       let c : Cfg := { amLighthouse := false, myNets := [⟨⟨.v4, 0x0a000001⟩, 24⟩], lighthouses := [],
-                       ral := { allowList := al, inside := none }, initV := 2, staticList := [] }
+                       ral := { allowList := al, inside := inside }, initV := 2, staticList := [] }
       let bUdp : AP := ⟨⟨.v4, 0xc0000202⟩, 4242⟩
       let cur : Option AP := if kind == "roam" then some bUdp else none
       let g := learnGate c k [⟨.v4, 0x0a000002⟩] cur ⟨fr, false⟩ false
@@ -208,11 +219,11 @@ def step (s : State) (args : List String) (impl : String) : State × Out :=
       let known := fr == bUdp && kind != "hs1"
       let verdict :=
         if took && !known && inMyNets c fr.addr then "bad addr-learned-inside-overlay"
-        else if took && !known && !AllowList.allow al fr.addr then "bad addr-learned-denied"
+        else if took && !known && !c.ral.allowAll [⟨.v4, 0x0a000002⟩] fr.addr then "bad addr-learned-denied"
         else "ok"
       (s, { model := model, verdict := verdict,
             tag := s!"gate:{kind}:" ++ (if g.isSome then "learned" else if inMyNets c fr.addr then "inside-overlay" else "refused-or-same") })
-    | _, _, _ => (s, badOp)
+    | _, _, _, _ => (s, badOp)
   | op :: rest =>
     match s.cfg with
     | none => (s, { model := "none", tag := "triv:none" })
